@@ -185,6 +185,10 @@ where
             let trimmed = v.trim();
 
             match trimmed.strip_prefix('+') {
+                // `UInt::from_str` accepts a sign of its own, a string with two signs is not an integer.
+                Some(without) if without.starts_with('+') => {
+                    Err(E::invalid_value(de::Unexpected::Str(v), &self))
+                }
                 Some(without) => without.parse::<UInt>().map(|u| u.into()).map_err(E::custom),
                 None => trimmed.parse().map_err(E::custom),
             }
